@@ -122,3 +122,60 @@ func Prepare(c *core.Ctx, race bool) (*Built, error) {
 	}
 	return b, nil
 }
+
+// PrepareLang builds a second variant of the program in which the GENERATED
+// file is compiled under an older Go language version: k/derived.gen.go (and
+// therefore its rewritten copy) starts with `//go:build <lang>`, which Go
+// honours as that file's language version. Below go1.22 a range variable is
+// one variable for the whole loop, so generated goroutine closures that
+// capture it directly behave differently. The driver's own files stay at the
+// module's go 1.24.
+func PrepareLang(c *core.Ctx, base *Built, lang string, race bool) (*Built, error) {
+	root := filepath.Join(c.Work, "m-"+lang)
+	b := &Built{Root: root, VsBin: filepath.Join(root, "vs.bin"), RealBin: filepath.Join(root, "real.bin"), RaceBin: filepath.Join(root, "race.bin"), Derived: base.Derived}
+	for _, d := range []string{"vsched", "obs", "k", "cmd/vs", "cmd/real"} {
+		ents, err := os.ReadDir(filepath.Join(base.Root, d))
+		if err != nil {
+			return nil, err
+		}
+		if err := os.MkdirAll(filepath.Join(root, d), 0755); err != nil {
+			return nil, err
+		}
+		for _, e := range ents {
+			if e.IsDir() || !strings.HasSuffix(e.Name(), ".go") {
+				continue
+			}
+			data, err := os.ReadFile(filepath.Join(base.Root, d, e.Name()))
+			if err != nil {
+				return nil, err
+			}
+			if d == "k" && e.Name() == "derived.gen.go" {
+				data = append([]byte("//go:build "+lang+"\n\n"), data...)
+			}
+			if err := os.WriteFile(filepath.Join(root, d, e.Name()), data, 0644); err != nil {
+				return nil, err
+			}
+		}
+	}
+	if err := os.WriteFile(filepath.Join(root, "go.mod"), []byte("module m\n\ngo 1.24\n"), 0644); err != nil {
+		return nil, err
+	}
+	if err := RewritePackage(root, "m", "m/k", filepath.Join(root, "k"), filepath.Join(root, "kv"), "m/vsched"); err != nil {
+		if strings.Contains(err.Error(), "does not type-check") {
+			return nil, &GenError{lang + " variant: " + err.Error()}
+		}
+		return nil, err
+	}
+	if err := b.goBuild(c, b.VsBin, "./cmd/vs"); err != nil {
+		return nil, fmt.Errorf("%s variant: rewritten program does not build: %v", lang, err)
+	}
+	if err := b.goBuild(c, b.RealBin, "./cmd/real"); err != nil {
+		return nil, fmt.Errorf("%s variant: %v", lang, err)
+	}
+	if race {
+		if err := b.goBuild(c, b.RaceBin, "./cmd/real", "-race"); err != nil {
+			return nil, err
+		}
+	}
+	return b, nil
+}
